@@ -80,7 +80,7 @@ Proof.
   destruct (st w <? ST_NCE) eqn:E1; [left; reflexivity|].
   destruct (st w =? ST_NCE) eqn:E2.
   - destruct (mkind m); try (left; reflexivity); right; (split; [lia | reflexivity]).
-  - destruct (_ && _ && _); left; reflexivity.
+  - destruct (_ && _ && _); [left; reflexivity|]. destruct (_ && _ && _); left; reflexivity.
 Qed.
 
 Lemma send_msg_st c m w :
@@ -169,18 +169,40 @@ Proof.
   destruct (skip_journal m); [reflexivity|]. apply wires_nil. apply persist_out_allev.
 Qed.
 
+Lemma encode_result c m w n wm :
+  rv (encode c m w) = inl (n, wm) -> wm = mkMsg (mtype m) (wire_tags c n m).
+Proof.
+  unfold encode. destruct (raw_seq m).
+  - destruct (get T34 (mtags m)); [|discriminate]. destruct (py_int s); [|discriminate]. cbn. now inversion 1.
+  - cbn. now inversion 1.
+Qed.
+
+Lemma encode_no_events c m w : re (encode c m w) = [].
+Proof.
+  unfold encode. destruct (raw_seq m); [|reflexivity].
+  destruct (get T34 (mtags m)); [|reflexivity]. destruct (py_int s); reflexivity.
+Qed.
+
+Lemma journal_step_no_events (m : msg) (n : Z) (wm : msg) w :
+  re ((if skip_journal m then ret tt else persist_out n wm) w) = [].
+Proof.
+  destruct (skip_journal m); [reflexivity|]. unfold persist_out.
+  destruct (negb _); [reflexivity|]. destruct (has_key _ _); reflexivity.
+Qed.
+
 Lemma send_write_wires c m w :
   wires (re (send_write c m w)) = [] \/
   exists seq, wires (re (send_write c m w)) = [mkMsg (mtype m) (wire_tags c seq m)].
 Proof.
   unfold send_write. rewrite bind_unfold.
-  unfold encode. destruct (raw_seq m).
-  - destruct (get T34 (mtags m)); [|left; reflexivity]. destruct (py_int s); [|left; reflexivity].
-    msimp. destruct (wr w); msimp; [|left; reflexivity].
-    right. exists z. cbn [wires]. rewrite journal_tail_no_wire. reflexivity.
-  - msimp.
-    destruct (wr (set_nout (nout w + 1) w)) eqn:Ew; msimp; [|left; reflexivity].
-    right. exists (nout w). cbn [wires]. rewrite journal_tail_no_wire. reflexivity.
+  pose proof (encode_result c m w) as Hr. pose proof (encode_no_events c m w) as He.
+  destruct (encode c m w) as [r we ee]. cbn [rv rw re] in *. subst ee.
+  destruct r as [[n wm]|x]; cbn [rv rw re app]; [|left; reflexivity].
+  specialize (Hr n wm eq_refl). subst wm. cbn [fst snd].
+  rewrite bind_unfold. rewrite journal_step_no_events.
+  destruct (rv ((if skip_journal m then ret tt else persist_out n _) we)); cbn [rv rw re app]; [|left; reflexivity].
+  msimp. destruct (wr _); msimp; [|left; reflexivity].
+  right. exists n. reflexivity.
 Qed.
 
 Lemma send_tail_wires c m w0 w :
@@ -479,13 +501,22 @@ Proof.
   destruct (st w <=? ST_DISC_BROKEN) eqn:E; [reflexivity|lia].
 Qed.
 
+Lemma early_drop_states m w :
+  early_drop m w = true -> st w = ST_NCE \/ st w = ST_LOGON_SENT \/ st w = ST_LOGON_RECV.
+Proof.
+  unfold early_drop. intros H. apply orb_true_iff in H. destruct H as [H|H]; apply andb_true_iff in H; destruct H as [H _].
+  - left. lia.
+  - right. apply orb_true_iff in H. destruct H; [left|right]; lia.
+Qed.
+
 Lemma part1_spec c m w : p1_spec c m w (part1 c m w).
 Proof.
   unfold part1. rewrite bind_unfold. cbn [getw rv rw re app].
   destruct (st w <? ST_NCE) eqn:E6.
   { cbn. constructor; cbn; try discriminate; auto. intros H. left. exact H. intros _. split; [discriminate|auto]. }
-  destruct ((st w =? ST_NCE) && negb match mkind m with KLogon => true | _ => false end) eqn:Enl.
-  { (* first message is not a Logon *)
+  destruct (early_drop m w) eqn:Enl.
+  { (* not acceptable before the Logon exchange has completed *)
+    apply early_drop_states in Enl.
     rewrite bind_unfold.
     assert (Hd : allev (fun e => not_app e /\ not_resend e) (disconnect c ST_DISC_BROKEN None))
       by (apply disconnect_none_allev; cbn; auto).
@@ -497,9 +528,9 @@ Proof.
     { apply resends_nil. eapply Forall_impl; [|exact Hd]. cbn. tauto. }
     destruct (disconnect c ST_DISC_BROKEN None w) as [rd wd ed]. cbn [rv rw re] in *.
     destruct rd; cbn [ret rv rw re]; rewrite ?app_nil_r; constructor; cbn [rv rw re]; auto; try discriminate.
-    - intros Hs. apply andb_true_iff in Enl. stlia.
+    - intros Hs. stlia.
     - intros _. split; [discriminate|auto].
-    - intros Hs. apply andb_true_iff in Enl. stlia.
+    - intros Hs. stlia.
     - intros _. split; [discriminate|auto]. }
   rewrite bind_unfold.
   pose proof (pre_handlers_not_app c m w w) as Hpa. apply apps_nil in Hpa.
@@ -899,7 +930,7 @@ Section SeqReset.
   Lemma part1_keepsI : keeps I (part1 c m).
   Proof.
     unfold part1. keeps_step; [keeps_tac|]. destruct (st a0 <? ST_NCE); [keeps_tac|].
-    destruct (_ && _).
+    destruct (early_drop m a0).
     { keeps_step; [|keeps_tac]. apply keepsI_pres. apply disconnect_pres. ins_solve. }
     keeps_step; [|apply keepsI_pres, gap_check_nin].
     unfold pre_handlers. keeps_step.
